@@ -58,7 +58,7 @@ func scenC40(e *Env) func() {
 	p := &c40Plan{Clients: Pick(e, 2, 3, 3, 4, 4, 5)}
 	n := e.Range(4, 25)
 	for i := 0; i < n; i++ {
-		op := c40Op{Op: Pick(e, "call", "call", "call", "call", "call", "pending", "sleep", "sleep", "add", "remove", "burst", "burst", "churn", "removeall")}
+		op := c40Op{Op: Pick(e, "call", "call", "call", "call", "call", "pending", "pending", "sleep", "sleep", "add", "remove", "burst", "burst", "churn", "removeall")}
 		switch op.Op {
 		case "call":
 			for j := 0; j < 6; j++ {
@@ -71,7 +71,8 @@ func scenC40(e *Env) func() {
 			op.J = e.Int(6)
 			op.N = Pick(e, 2, 4, 8)
 		case "pending":
-			op.J = e.Int(6)
+			// (the first client is where a scan for the least-loaded one starts: its load matters most)
+			op.J = Pick(e, 0, 0, e.Int(6), e.Int(6), e.Int(6))
 			op.N = Pick(e, 0, 0, 1, 1, 2, 2, 1, 5, 300, 301, 299)
 		case "sleep":
 			op.Ms = Pick(e, 100, 1000, 2900, 3100, 3500, 7000)
